@@ -373,6 +373,8 @@ def shards(tier, seed):
     for c in CLASSES:
         for k in range(nchunk):
             out.append(('obs', c, maxlen, ntags, k, nchunk))
+    for c in CLASSES:
+        out.append(('cross', c))
     if tier == 'thorough':
         for c in CLASSES:
             for start in range(5):
@@ -382,8 +384,51 @@ def shards(tier, seed):
     return out
 
 
+def cross_class(ctx, first):
+    """histories that span classes (state kept on a class outlives the objects): every history of mc/crossproc.py starting with `first`,
+    each run in a forked child of a pristine interpreter; the last step must give what it gives when run alone"""
+    import subprocess, sys, os, json
+    from mc import core
+    if ctx.only is not None and not ctx.only.startswith('C10/cross/%s.' % first):
+        return
+    env = dict(os.environ, VERIF_REPO=core.REPO, PYTHONPATH=core.VERIF)
+    r = subprocess.run([sys.executable, '-m', 'mc.crossproc', first], cwd=core.VERIF, env=env, capture_output=True, text=True, timeout=600)
+    if r.returncode != 0 or not r.stdout.strip():
+        raise HarnessError('crossproc %s failed: %s' % (first, r.stderr[-400:]))
+    doc = json.loads(r.stdout.strip().splitlines()[-1])
+    ctx.count('cross_class_histories', doc['histories'])
+    bad = {}
+    for d in doc['diffs']:
+        bad['>'.join('%s.%s' % (c, o) for c, o in d['history'])] = d
+    # one case per explored history (the helper reports the differing ones; all others agreed)
+    import mc.crossproc as cp
+    hs = [[(first, a), (B, b)] for B in cp.CLASSES for a in cp.OPS for b in cp.OPS] + \
+         [[(first, 'Alloc2'), (B, 'Alloc2'), (C, 'Alloc2')] for B in cp.CLASSES for C in cp.CLASSES]
+    for h in hs:
+        name = '>'.join('%s.%s' % (c, o) for c, o in h)
+        cid = 'C10/cross/' + name
+        if not ctx.want(cid):
+            continue
+        ctx.case(cid, key=cid, trivial=False)
+        if name in bad:
+            d = bad[name]
+            last = h[-1]
+            ctx.fail(cid, 'list.' + {'Alloc2': 'Alloc', 'Empty': 'Empty', 'default': 'default'}[last[1]], 'mismatch', {'cls': last[0], 'history': name},
+                     '%s.%s after %s gives %s, alone it gives %s' % (last[0], last[1], ' ; '.join('%s.%s' % x for x in h[:-1]), _short(d['got']), _short(d['alone'])))
+
+
+def _short(o):
+    try:
+        return '%s%s' % (o[0], [tuple(e[0]) for e in o[1]] if isinstance(o[1], list) else '')
+    except Exception:
+        return repr(o)[:80]
+
+
 def run_shard(ctx, shard):
     kind, cname = shard[0], shard[1]
+    if kind == 'cross':
+        cross_class(ctx, cname)
+        return
     m = Model(cname)
     if kind == 'bfs':
         _, _, maxlen, ntags = shard
